@@ -217,6 +217,12 @@ def to_cobra(net, solver="glpk", name="net"):
         m.objective = obj
     if style not in (1, 3, 6, 8):
         m.objective_direction = net["dir"]
+    if style in (2, 7) and rs:
+        # an objective term that was added through the additive form and taken back the same way (it cancels)
+        from cobra.util.solver import set_objective
+        zero = [r for r in rs if r.objective_coefficient == 0] or rs
+        set_objective(m, 1.0 * zero[0].flux_expression, additive=True)
+        set_objective(m, -1.0 * zero[0].flux_expression, additive=True)
     if style in (6, 7, 9) and net["mets"]:
         # a temporary reaction that was part of the objective (negative weight) and is removed again, outside any block
         tmp = Reaction("ZZ_tmp")
@@ -224,7 +230,10 @@ def to_cobra(net, solver="glpk", name="net"):
         tmp.add_metabolites({mets[net["mets"][0]]: -1.0})
         m.add_reactions([tmp])
         tmp.objective_coefficient = -2.0
+        if len(m.genes):
+            tmp.gene_reaction_rule = m.genes[0].id      # shares a gene with the model's reactions
         m.remove_reactions([tmp])
+        tmp.copy()                                      # copying the removed reaction must not touch the model's genes
     if style >= 8 and len(rs) >= 2:     # a block that removes reactions (and edits one in place) is rolled back
         order = [r.id for r in m.reactions]
         with m:
